@@ -115,6 +115,11 @@ func c06(args []string) int {
 		}
 		hist := map[string]int{}
 		seen := map[string]bool{}
+		if gt := int(rule.VerifTotalWeight()); gt != total {
+			run.Fail("wcluster:draw-range-differs-from-weight-sum", fmt.Sprintf("the draw is taken from [0,%d) but the weights sum to %d (weights %v): probabilities are not weight/total", gt, total, vec),
+				map[string]interface{}{"part": "clusters", "weights": cs, "draw_bound": gt, "sum": total})
+			total = gt // explore the draw space the code really uses
+		}
 		for v := 0; v < total; v++ {
 			for k := 0; k < reps; k++ {
 				src.next = int64(v)
